@@ -107,7 +107,8 @@ impl Scenario for HmacSplit {
                 let tiny = rng.chance(1, 8);
                 for _ in 0..nops {
                     let len = if tiny { rng.below(4) as usize } else { hashctx::chunk_len(rng, b, fill, false).min(4096) };
-                    t.ops.push(Op::new(0, K_INPUT).len(len).seed(rng.data_seed()).off(rng.below(32) as u8));
+                    let dseed = match rng.below(16) { 0 => 0, 1 => 1, _ => rng.data_seed() };
+                    t.ops.push(Op::new(0, K_INPUT).len(len).seed(dseed).off(rng.below(32) as u8));
                     fill += len;
                 }
                 t.ops.push(Op::new(0, K_RESULT).off(rng.below(2) as u8));
